@@ -110,6 +110,51 @@ impl Verdict {
     }
 }
 
+/// Progress accounting for the hang watchdog (see `start_watchdog`).
+pub static RUNS_DONE: std::sync::atomic::AtomicU64 = std::sync::atomic::AtomicU64::new(0);
+pub static RUNS_IN_FLIGHT: std::sync::atomic::AtomicI64 = std::sync::atomic::AtomicI64::new(0);
+
+struct InFlight;
+impl InFlight {
+    fn new() -> InFlight {
+        RUNS_IN_FLIGHT.fetch_add(1, std::sync::atomic::Ordering::Relaxed);
+        InFlight
+    }
+}
+impl Drop for InFlight {
+    fn drop(&mut self) {
+        RUNS_IN_FLIGHT.fetch_sub(1, std::sync::atomic::Ordering::Relaxed);
+        RUNS_DONE.fetch_add(1, std::sync::atomic::Ordering::Relaxed);
+    }
+}
+
+/// A pipeline run normally takes microseconds. If runs are in flight and none has finished for
+/// `secs` seconds, pyxis is looping or allocating without bound on some input: the check cannot
+/// deliver a verdict (C12 finds and names such inputs in isolated worker processes), so it stops
+/// with a machinery error instead of hanging forever.
+pub fn start_watchdog(secs: u64) {
+    std::thread::spawn(move || {
+        use std::sync::atomic::Ordering::Relaxed;
+        let mut last = u64::MAX;
+        let mut stuck = 0;
+        loop {
+            std::thread::sleep(std::time::Duration::from_secs(5));
+            let done = RUNS_DONE.load(Relaxed);
+            if RUNS_IN_FLIGHT.load(Relaxed) > 0 && done == last {
+                stuck += 5;
+                if stuck >= secs {
+                    eprintln!("MACHINERY-ERROR: a pyxis pipeline run has not returned for {secs} s (endless loop or unbounded allocation in pyxis on some input of this space; `./check C12 quick` isolates such inputs)");
+                    crate::util::cleanup_scratch();
+                    std::process::exit(2);
+                }
+            } else {
+                stuck = 0;
+                last = done;
+            }
+        }
+    });
+}
+
 thread_local! {
     static LAST_PANIC: RefCell<Option<String>> = const { RefCell::new(None) };
     static OUT_DIR: RefCell<Option<PathBuf>> = const { RefCell::new(None) };
@@ -279,6 +324,7 @@ pub fn run(input: &Input, ps: usize) -> Verdict {
 }
 
 pub fn run_with(input: &Input, ps: usize, do_emit: bool) -> Verdict {
+    let _guard = InFlight::new();
     let parsed = match parse_all(input) {
         Ok(p) => p,
         Err(v) => return v,
@@ -307,6 +353,7 @@ pub fn run_scheduled(
     add_order: &[usize],
     scheduler: pyxis::verif::Scheduler,
 ) -> Verdict {
+    let _guard = InFlight::new();
     let parsed = match parse_all(input) {
         Ok(p) => p,
         Err(v) => return v,
